@@ -165,5 +165,48 @@ def stepOp (b : SBag) : Op → Option SBag × String
     if n < 0 || n ≥ b.length then (some b, "err")
     else (some { b with rows := b.rows.map fun r => (r.1, if fs then r.2.drop n.toNat else r.2.take (r.2.length - n.toNat)) }, "ok")
   | .autoAlpha => (some { b with alphabet := autoAlphabet (b.rows.map Prod.snd) }, "ok")
+  | .revcomp =>
+    -- only defined on nucleotides (an error otherwise, nothing changed); every residue is replaced by
+    -- its IUPAC complement and the order of the residues is reversed; a residue without a complement is
+    -- an error after which the content is unspecified
+    if b.alphabet != NUCLEOTIDS then (some b, "err") else
+    if b.rows.any (fun r => r.2.any fun c => (complementByte c).isNone) then (none, "err") else
+    (some { b with rows := b.rows.map fun r => (r.1, (r.2.map fun c => (complementByte c).getD c).reverse) }, "ok")
+  | .replaceChar name site c =>
+    -- overwrites the residue at position `site` of the sequence called `name` (the first one of that name,
+    -- as every by-name access); an error, nothing changed, for a site outside the alignment or an unknown name
+    if !b.isAlign then (some b, "na") else
+    if site < 0 || site ≥ b.length then (some b, "err") else
+    if (firstNamed name b.rows).isNone then (some b, "err") else
+    (some { b with rows := updateFirst name (fun s => s.set site.toNat c) b.rows }, "ok")
+  | .rmGapSites num den ends =>
+    -- a site qualifies when its number of gaps meets the cutoff `num/den` over all sequences (`cutoffTest`:
+    -- at least that proportion, or at least one gap for a cutoff of 0); every qualifying site is removed,
+    -- or with `ends` only those of the maximal qualifying runs at the start and at the end; reported:
+    -- the lengths of these two runs, the kept and the removed positions
+    if !b.isAlign then (some b, "na") else
+    if b.rows = [] then (some b, sitesStatus 0 0 [] []) else
+    let L := b.length.toNat
+    let q : List Bool := (List.range L).map fun j =>
+      cutoffTest num den (b.rows.filter fun r => r.2[j]? == some GAP).length b.rows.length
+    let lead := (q.takeWhile id).length
+    let trail := (q.reverse.takeWhile id).length
+    let gone (i : Nat) : Bool := q.getD i false && (!ends || i < lead || i ≥ L - trail)
+    let kept := (List.range L).filter fun i => !gone i
+    let removed := (List.range L).filter gone
+    (some { b with rows := b.rows.map fun r => (r.1, kept.filterMap fun j => r.2[j]?) },
+     sitesStatus lead trail kept removed)
+  | .compress =>
+    -- identical sites are merged: the distinct columns, each once, with its number of occurrences; the
+    -- documentation leaves their order open, the reference takes increasing byte-wise lexicographic order
+    -- (`patternTable`: strictly increasing, weights = multiplicities — `C13.patternTable_spec`).
+    -- An alignment without sequences has no site to merge: the implementation then reports the length 0
+    -- instead of −1 (`C01.compress_empty_not_rect`), the reference does not specify that state.
+    if !b.isAlign then (some b, "na") else
+    if b.rows = [] then (none, "ok[_]") else
+    let cols := (List.range b.length.toNat).map fun j => b.rows.filterMap fun r => r.2[j]?
+    let tbl := patternTable cols
+    (some { b with rows := b.rows.zipIdx.map fun (r, i) => (r.1, tbl.filterMap fun p => p.1[i]?) },
+     "ok[" ++ plusList (tbl.map Prod.snd) ++ "]")
 
 end Gv.Spec
